@@ -148,6 +148,16 @@ def inplace_effects(E: Effects, funcs: List[Func]):
             txt = e.target
             if e.kind == "AUG_INPLACE":
                 arrayish = True
+                # an augmented assignment on a value typed as a set / dict / str / int is not an array operation
+                for st in walk_no_nested(f.node):
+                    if getattr(st, "lineno", -1) == e.line and isinstance(st, ast.AugAssign) and isinstance(st.target, ast.Name):
+                        bt = E.R.expr_type(st.target, f, env)
+                        if bt and (bt[0] in ("set", "dict") or bt == ("ext", "str") or bt == ("ext", "int") or bt == ("ext", "float")):
+                            arrayish = False
+                        elif isinstance(st.op, (ast.BitOr, ast.BitAnd, ast.BitXor)) or (
+                                isinstance(st.op, ast.Sub) and any(isinstance(d_, ast.Assign) and norm(d_.targets[0]) == st.target.id
+                                                                   and isinstance(d_.value, (ast.Set, ast.SetComp)) for d_ in walk_no_nested(f.node))):
+                            arrayish = False
             elif e.kind == "ITEM_STORE":
                 # item store into an ndarray (typed) or into a position/velocity attribute
                 arrayish = ("position" in txt or "velocit" in txt or "ndarray" in txt)
